@@ -749,6 +749,7 @@ func genDim(rt *rapid.T, label string, allowZero bool) float64 {
 }
 
 type OptSpec struct {
+	NoUnits    bool // never rescale the case to units far from pixels
 	CBs         []int
 	Lays        []int
 	Poss        []int // Pos*
@@ -849,6 +850,23 @@ func genOptions(rt *rapid.T, c *Case, ids []string, sp OptSpec) {
 	}
 	if !(sp.DefaultsOK && chance(rt, "ls_default", 1, 6)) {
 		c.LS = ptr(dim("ls", sp.LSZero))
+	}
+	// units far from pixels: every size and spacing of the case times 2^k, |k| in 8..30 (metres, normalised coordinates,
+	// EMUs). Nothing in the properties depends on the unit; an absolute epsilon in the code under test does
+	// (seeded/r6-m17, r4-m17, r2-m17 were all of that kind and only C17 looked). Not for the NetworkSimplex positioner
+	// (integer grid) and the spline router (its fitter has documented absolute tolerances: C20). The oracles' own
+	// tolerances follow the unit (tolUnit).
+	if !dyadicOnly && !sp.NoUnits && c.Pos != PosNS && c.Rt != RtSplines && chance(rt, "units?", 1, 12) {
+		k := rapid.IntRange(8, 30).Draw(rt, "unit_exp")
+		if rapid.Bool().Draw(rt, "unit_tiny") {
+			k = -k
+		}
+		f := math.Ldexp(1, k)
+		c.NS, c.LS = ptr(c.NodeSpacing()*f), ptr(c.LayerSpacing()*f)
+		c.Fixed = Sz{c.Fixed.W * f, c.Fixed.H * f}
+		for id, v := range c.Sizes {
+			c.Sizes[id] = Sz{v.W * f, v.H * f}
+		}
 	}
 	// junk in the X/Y fields of the size map's values (Case.SizeMap): they are not part of a size
 	if c.Sizes != nil && chance(rt, "size_xy?", 1, 6) {
